@@ -57,6 +57,8 @@ type Net struct {
 	// Mutate lets a Byzantine node alter / drop / equivocate: called once per (message, addressee)
 	// for messages emitted by non-honest nodes. Returning nil drops the message.
 	Mutate func(from *Node, m *protocol.Message, to *Node) *protocol.Message
+	// PreEmit sees every batch of messages a node produced before they are routed.
+	PreEmit func(from *Node, msgs []*protocol.Message)
 	// Route decides the addressees of an emitted message (default: every other node of the same Tag).
 	Route func(from *Node, m *protocol.Message) []*Node
 	// AfterDeliver is called after each delivery (invariants, fault injection).
@@ -252,6 +254,9 @@ func canonLess(a, b *protocol.Message) bool {
 // Emit puts the messages a node produced into the pool, once per addressee.
 func (n *Net) Emit(from *Node, msgs []*protocol.Message) {
 	sort.SliceStable(msgs, func(i, j int) bool { return canonLess(msgs[i], msgs[j]) })
+	if n.PreEmit != nil && len(msgs) > 0 {
+		n.PreEmit(from, msgs)
+	}
 	for _, m := range msgs {
 		from.Sent = append(from.Sent, m)
 		var targets []*Node
